@@ -372,6 +372,22 @@ def workInitSys (c : Cfg) (fail : Nat → Bool) (s : St) : St × Int :=
   let s1 := { s with mallocs := s.mallocs + 1 }
   if fail s.mallocs = true then (s1, isize c + dsize c + c.n) else (s1, 0)
 
+/-- `dSetupSpace` + `Glu->n`, `Glu->expanders` (malloc #0) -/
+def setupSpace (c : Cfg) : St :=
+  if c.lwork = 0 then { n := c.n, mallocs := 1 }
+  else { user := true, base4 := c.base4, n := c.n, top2 := (c.lwork / 4) * 4, size := (c.lwork / 4) * 4 }
+
+/-- the five pointer arrays xsup, supno, xlsub, xlusup, xusub at the head of the workspace
+(dmemory.c:249-253); `hdrOk` records whether all five calls returned non-NULL -/
+def hdrAlloc (hb : Int) (s0 : St) : St :=
+  let a1 := userMallocHead hb s0
+  let a2 := userMallocHead hb a1.1
+  let a3 := userMallocHead hb a2.1
+  let a4 := userMallocHead hb a3.1
+  let a5 := userMallocHead hb a4.1
+  { a5.1 with hdrOk := a1.2.isSome && a2.2.isSome && a3.2.isSome && a4.2.isSome && a5.2.isSome,
+              hdrEnd := a5.1.top1 }
+
 /-- result of `LUMemInit` -/
 structure InitRes where
   st : St
@@ -387,21 +403,9 @@ Malloc count convention: only `SUPERLU_MALLOC`s written in `[sdcz]memory.c` are 
 def memInit (fx : Fixes) (fail : Nat → Bool) (c : Cfg) : InitRes :=
   let w := c.w
   let nz := c.fill * c.annz
-  let s0 : St :=
-    if c.lwork = 0 then { n := c.n, mallocs := 1 }
-    else { user := true, base4 := c.base4, n := c.n, top2 := (c.lwork / 4) * 4, size := (c.lwork / 4) * 4 }
+  let s0 := setupSpace c
   -- the five pointer arrays (unchecked on the pinned tree)
-  let hb := (c.n + 1) * w.iw
-  let s1 : St :=
-    if s0.user = false then s0
-    else
-      let a1 := userMallocHead hb s0
-      let a2 := userMallocHead hb a1.1
-      let a3 := userMallocHead hb a2.1
-      let a4 := userMallocHead hb a3.1
-      let a5 := userMallocHead hb a4.1
-      { a5.1 with hdrOk := a1.2.isSome && a2.2.isSome && a3.2.isSome && a4.2.isSome && a5.2.isSome,
-                  hdrEnd := a5.1.top1 }
+  let s1 : St := if s0.user = false then s0 else hdrAlloc ((c.n + 1) * w.iw) s0
   if fx.d3 = true ∧ s1.hdrOk = false then
     { st := s1, info := memoryUsage w nz nz nz c.n + c.n }
   else
@@ -436,14 +440,13 @@ def growUntil (fx : Fixes) (w : Words) (fail : Nat → Bool) (t : MemType) (need
   | 0, s => if need > s.nz t then none else some (s, 0)
   | f+1, s =>
     if need > s.nz t then
-      match memXpand fx w fail t s with
-      | (s1, 0) =>
+      let r := memXpand fx w fail t s
+      if r.2 = 0 then
         if t = .UCOL then
-          match memXpand fx w fail .USUB s1 with
-          | (s2, 0) => growUntil fx w fail t need f s2
-          | (s2, e) => some (s2, e)
-        else growUntil fx w fail t need f s1
-      | (s1, e) => some (s1, e)
+          let r2 := memXpand fx w fail .USUB r.1
+          if r2.2 = 0 then growUntil fx w fail t need f r2.1 else some r2
+        else growUntil fx w fail t need f r.1
+      else some r
     else some (s, 0)
 
 /-! ### Live blocks of a workspace (what is handed to writers) -/
